@@ -212,9 +212,17 @@ class C20(Check):
             h = r.h_matrix
             if np.abs(h[:-1, -1]).max() != 0 or np.abs(h[-1, :-1]).max() != 0 or h[-1, -1] != 1:
                 fails.append(Failure(where, "not-a-pure-rotation", repr(h)))
-        # chain: the accumulated rotation is the rotation by the summed angle
-        st["R"] = r.compose_after(st["R"])
+        # chain: the accumulated rotation is the rotation by the summed angle.  The accumulated rotation has been
+        # queried (axis / angle, string form) in the previous step, so it is used as the RECEIVER of the composition:
+        # anything memoised on a queried rotation must not survive into what is composed from it.
+        prev = st["R"]
+        str(prev)
+        alt = r.compose_after(prev)  # fresh receiver
+        inpl = prev.copy()
+        inpl.compose_before_inplace(r)  # copy of a queried rotation, composed in place
+        st["R"] = prev.compose_before(r)
         st["angle"] = st["angle"] + theta
+        self._alternatives = (alt, inpl)
         self.note("turn:%s" % ("wraps" if abs(st["angle"]) >= 360 else "plain"))
         if verify:
             tot = np.deg2rad(st["angle"])
@@ -223,7 +231,22 @@ class C20(Check):
             if np.abs(R - exp).max() > 1e-10:
                 fails.append(Failure(where, "sum-of-angles", "accumulated %s deg: matrix differs from the rotation by the sum (%.3g)" % (st["angle"], np.abs(R - exp).max())))
             else:
-                fails.extend(self._axis_angle_oracle(st["R"], "axis-angle-" + ("2d" if axis == "2d" else "3d"), true_axis=None if axis == "2d" else AXES[axis], true_angle=wrap(tot)))
+                for how, Rk in (("receiver-was-queried", st["R"]), ("fresh-receiver", self._alternatives[0]), ("inplace-on-copy", self._alternatives[1])):
+                    if np.abs(Rk.rotation_matrix - exp).max() > 1e-10:
+                        fails.append(Failure(where, "sum-of-angles", "%s: accumulated %s deg differs from the rotation by the sum" % (how, st["angle"])))
+                        continue
+                    f = self._axis_angle_oracle(Rk, "axis-angle-" + ("2d" if axis == "2d" else "3d"), true_axis=None if axis == "2d" else AXES[axis], true_angle=wrap(tot))
+                    fails.extend(f)
+                    if f and not all(x.finding for x in f):
+                        break
+                # report every distinct failure once
+                seen, uniq = set(), []
+                for f in fails:
+                    k = (f.where, f.clause, f.finding)
+                    if k not in seen:
+                        seen.add(k)
+                        uniq.append(f)
+                fails = uniq
         return fails
 
     def _axis_angle_oracle(self, R, where, true_axis=None, true_angle=None):
